@@ -84,6 +84,19 @@ func init() {
 			b("https://bar.com$path", "/foo", "", "301", "foo.com", "/foo"),
 			b("https://bar.com$path", "/a", "", "301", "foo.com", "/ab"),
 			b("https://$host/$path", "", "", "301", "bücher.example", "/é/%C3%A9?x=é"),
+			// url.Parse of the template text
+			b("HTTPS://Bar.com:8443/$path?x=1#frag", "", "", "301", "foo.com", "/x"),
+			b("https://[::1]:8443$path", "", "", "301", "foo.com", "/x"),
+			b("https://b%C3%A9r.com/$path", "", "", "301", "foo.com", "/x"),
+			b("https://b%41r.com/$path", "", "", "301", "foo.com", "/x"),  // rejected: only %25 and non-ASCII may be escaped in a host
+			b("https://bar.com:80a/$path", "", "", "301", "foo.com", "/x"), // rejected: invalid port
+			b("https://bar .com/$path", "", "", "301", "foo.com", "/x"),    // rejected: invalid host character
+			b("https://bar.com/a%zz$path", "", "", "301", "foo.com", "/x"), // rejected: malformed escape
+			b("https://bar.com/$path#%zz", "", "", "301", "foo.com", "/x"), // rejected: malformed escape in the fragment
+			b("https://bar.com/\x7f$path", "", "", "301", "foo.com", "/x"), // rejected: control byte
+			b("://bar.com/$path", "", "", "301", "foo.com", "/x"),          // rejected: missing protocol scheme
+			b("https:/$path", "", "", "301", "foo.com", "/x"),
+			b("https://bar.com?", "", "", "301", "foo.com", "/x?q=1"),
 		},
 		Gen: func(r *hx.Rand, i int) interface{} {
 			in := buildIn{}
@@ -98,6 +111,8 @@ func init() {
 				in.Strip = genStripOdd(r)
 			case 2:
 				in.Prepend = genPrependOdd(r)
+			case 3, 4, 5, 6, 7: // the template text as url.Parse sees it: spellings, malformed and unmodelled shapes
+				in.Tmpl = genTmplParse(r)
 			}
 			in.Redirect = genCode(r)
 			in.Host = r.Pick(reqHosts)
